@@ -787,7 +787,13 @@ def parse_if_range_header(value: str | None) -> ds.IfRange:
     if date is not None:
         return ds.IfRange(date=date)
     # drop weakness information
-    return ds.IfRange(unquote_etag(value)[0])
+    etag = unquote_etag(value)[0]
+
+    if etag is None or '"' in etag:
+        # Not an entity tag, it could not be written back as a header either.
+        return ds.IfRange()
+
+    return ds.IfRange(etag)
 
 
 def parse_range_header(
